@@ -34,7 +34,7 @@ def pre_build():
     if mv:
         global GEMDAT_DIAG, MOVES6
         MOVES6, GEMDAT_DIAG = list(mv['movements']), list(mv['diagonal_movements'])
-    return [n1, n2, n3]
+    return [n1, n2, n3, translate.gen_percolate()]
 
 
 def gen_cases(rng, tier):
